@@ -158,6 +158,17 @@ int vs_once(pthread_once_t *c, void (*f)(void)) {
 ssize_t vs_write(int fd, const void *b, size_t n) { int t = vs_tid; if (t >= 0 && active) point(t, VS_USER, (void *)1); return write(fd, b, n); }
 ssize_t vs_writev(int fd, const struct iovec *iov, int c) { int t = vs_tid; if (t >= 0 && active) point(t, VS_USER, (void *)2); return writev(fd, iov, c); }
 int vs_close(int fd) { int t = vs_tid; if (t >= 0 && active) point(t, VS_USER, (void *)3); return close(fd); }
+#include <stdio.h>
+#include <sys/stat.h>
+int vs_fprintf(FILE *f, const char *fmt, ...) { int t = vs_tid; if (t >= 0 && active) point(t, VS_USER, (void *)4); va_list ap; va_start(ap, fmt); int r = vfprintf(f, fmt, ap); va_end(ap); return r; }
+int vs_printf(const char *fmt, ...) { int t = vs_tid; if (t >= 0 && active) point(t, VS_USER, (void *)4); va_list ap; va_start(ap, fmt); int r = vprintf(fmt, ap); va_end(ap); return r; }
+int vs_fputs(const char *x, FILE *f) { int t = vs_tid; if (t >= 0 && active) point(t, VS_USER, (void *)5); return fputs(x, f); }
+int vs_fputc(int c, FILE *f) { int t = vs_tid; if (t >= 0 && active) point(t, VS_USER, (void *)6); return fputc(c, f); }
+int vs_puts(const char *x) { int t = vs_tid; if (t >= 0 && active) point(t, VS_USER, (void *)5); return puts(x); }
+size_t vs_fwrite(const void *b, size_t a, size_t n, FILE *f) { int t = vs_tid; if (t >= 0 && active) point(t, VS_USER, (void *)7); return fwrite(b, a, n, f); }
+int vs_fflush(FILE *f) { int t = vs_tid; if (t >= 0 && active) point(t, VS_USER, (void *)8); return fflush(f); }
+mode_t vs_umask(mode_t m) { int t = vs_tid; if (t >= 0 && active) point(t, VS_USER, (void *)9); return umask(m); }
+int vs_open(const char *p, int fl, ...) { int t = vs_tid; if (t >= 0 && active) point(t, VS_USER, (void *)10); mode_t m = 0; if (fl & O_CREAT) { va_list ap; va_start(ap, fl); m = va_arg(ap, mode_t); va_end(ap); } return open(p, fl, m); }
 void vs_user_point(void *obj) { int t = vs_tid; if (t >= 0 && active) point(t, VS_USER, obj); }
 pid_t vs_fork(void) {
     int t = vs_tid;
